@@ -439,7 +439,7 @@ class _SliceZero(ast.NodeTransformer):
         return n
 
 
-_NUMPY_DRAWS = {"normal": ("loc", "scale"), "gamma": ("shape", "scale"), "uniform": ("low", "high")}
+_NUMPY_DRAWS = {"normal": ("loc", "scale"), "gamma": ("shape", "scale"), "uniform": ("low", "high"), "clip": ("a", "a_min", "a_max")}
 
 
 class _Synonyms(ast.NodeTransformer):
